@@ -438,6 +438,29 @@ def canonical(g):
     return prods, helps
 
 
+# what the AST content built by a production feeds downstream: a production that loses or alters content breaks those properties too
+# (a necessary condition of each: the declared attribute / field / signature has to reach the semantic layer unchanged)
+DOWNSTREAM = [
+    (r'parse_type_definition|TypeStatement|TypeField', ['C01', 'C02', 'C03', 'C17']),
+    (r'grammar::Attribute|AttributePart|parse_attribute', ['C01', 'C02', 'C03', 'C05', 'C15', 'C16', 'C17']),
+    (r'for grammar::Function>|for grammar::Argument>', ['C04', 'C05', 'C16']),
+    (r'EnumStatement|parse_enum_definition', ['C08']),
+    (r'for grammar::Type>|parse_type_ident', ['C01', 'C05', 'C10', 'C20']),
+    (r'for grammar::Expr>|for grammar::ExprField>', ['C08', 'C15', 'C17', 'C20']),
+    (r'for grammar::ItemPath>|parse_item_definition|for grammar::Module>|parse_str', ['C11', 'C14']),
+    (r'parse_backend', ['C14']),
+    (r'for grammar::Visibility>', ['C17']),
+]
+
+
+def downstream(name):
+    out = ['C18']
+    for rx, props in DOWNSTREAM:
+        if re.search(rx, name):
+            out += [p_ for p_ in props if p_ not in out]
+    return out
+
+
 def run(ctx):
     P = ctx.prog
     g = extract(P)
@@ -492,17 +515,17 @@ def run(ctx):
     for name in sorted(set(g) | set(ref)):
         a, b = g.get(name), ref.get(name)
         if a is None:
-            ctx.ob(['C18'], 'R-GRAM', 'production|%s' % name, False, 'parser function of the reference grammar no longer exists (the grammar is read from the function-per-node parser; fail closed)', '')
+            ctx.ob(downstream(name), 'R-GRAM', 'production|%s' % name, False, 'parser function of the reference grammar no longer exists (the grammar is read from the function-per-node parser; fail closed)', '')
             continue
         f = P.fns.get(name) or next((x for x in P.fns.values() if cidn(x.id) == name), None)
         where = loc(f.span) if f else ''
         if b is None:
-            ctx.ob(['C18'], 'R-GRAM', 'production|%s' % name, False, 'new parser function that the reference grammar does not know: %s' % a[:2], where)
+            ctx.ob(downstream(name), 'R-GRAM', 'production|%s' % name, False, 'new parser function that the reference grammar does not know: %s' % a[:2], where)
             continue
         missing = [p for p in b if p not in a]
         extra = [p for p in a if p not in b]
         ok = not missing and not extra
-        ctx.ob(['C18', 'C12'] if any('error' in p_ for p_ in missing + extra) else ['C18'], 'R-GRAM', 'production|%s' % short(name), ok,
+        ctx.ob(downstream(name) + (['C12'] if any('error' in p_ for p_ in missing + extra) else []), 'R-GRAM', 'production|%s' % short(name), ok,
                ('%d token/constructor paths equal the reference grammar' % len(a)) if ok else
                'the concrete syntax or the AST construction of this production changed: %d paths no longer present (e.g. %s), %d new (e.g. %s)' % (
                    len(missing), (missing[0][:260] if missing else '-'), len(extra), (extra[0][:260] if extra else '-')), where)
